@@ -18,10 +18,12 @@ package astminify
 //@   requires m != nil && vis != nil
 //@   ghost var g_sorted bool = false
 //@   at call slices.SortStableFunc: ghost g_sorted = true
-//@   at call Minifier.replaceItems: assert {candidates.are.replaced.in.sorted.order.never.in.map.order} g_sorted
+//@   ghost var g_done int = 0
+//@   at call Minifier.replaceItems: assert {candidates.are.replaced.in.sorted.order.never.in.map.order} g_sorted && 0 <= g_done && g_done < len(replacements) && arg1 == replacements[g_done]
+//@   at call Minifier.replaceItems: ghost g_done = g_done + 1
 //@   modifies *
 //@   safety no-bounds
 //@   loop 0:
 //@     invariant !g_sorted
 //@   loop 1:
-//@     invariant g_sorted
+//@     invariant g_sorted && g_done == phi0 + 1
